@@ -485,13 +485,13 @@ Definition recv_trailers_core (sid : N) (o : hobs) (r : srec) : srec * list out 
   | _ => (r, [], RErr (lib_reset sid PROTOCOL_ERROR))      (* declared content-length not exhausted *)
   end.
 
-(* the part of Inner::recv_headers after the record is found or made; `ins` = it has just been made *)
+(* the part of Inner::recv_headers after the record (k, r) of `st` is found or made; `ins` = it has just been made *)
 Definition recv_headers_on (st : conn) (sid : N) (eos info : bool) (o : hobs) (k : N) (r : srec) (ins : bool)
   : outcome :=
   let o0 := if ins then [OOpened sid] else [] in
-  let wr := fun r' => if ins then insert st k r' else put st k r' in
-  if s_popen r then res1 (wr r) o0 (RErr conn_proto)
-  else if is_local_error (s_state r) then res1 (wr r) o0 RIgnored
+  let wr := fun r' => put st k r' in
+  if s_popen r then res1 st o0 (RErr conn_proto)
+  else if is_local_error (s_state r) then res1 st o0 RIgnored
   else if is_recv_headers (s_state r) then
     match recv_headers_core (c_role st) sid eos info o r with
     | None => Panic 1
@@ -501,7 +501,7 @@ Definition recv_headers_on (st : conn) (sid : N) (eos info : bool) (o : hobs) (k
     end
   else if negb eos then
     (* trailers without END_STREAM: returned from inside the closure, the reset is left to the caller *)
-    res1 (wr r) (o0 ++ [ORxRefused sid]) (RErr (lib_reset sid PROTOCOL_ERROR))
+    res1 st (o0 ++ [ORxRefused sid]) (RErr (lib_reset sid PROTOCOL_ERROR))
   else
     let '(r1, o1, res) := recv_trailers_core sid o r in
     let '(r2, o2, res2) := reset_on_recv_stream_err sid res (h_quota o) (h_can_reset o) r1 in
@@ -523,7 +523,7 @@ Definition step_recv_headers (st : conn) (sid : N) (eos info : bool) (o : hobs) 
            | OpOpened st1 =>
              match kget st1 nk with
              | Some _ => Stuck 40                         (* the key of a new record is fresh *)
-             | None => recv_headers_on st1 sid eos info o nk (new_rec sid) true
+             | None => recv_headers_on (insert st1 nk (new_rec sid)) sid eos info o nk (new_rec sid) true
              end
            end
     end.
